@@ -1015,7 +1015,7 @@ def r03_6(ctx, counts) -> RuleResult:
                     return coll_nodes(e.args[0], at, comp_env, seen)
                 if fn in ('cast', 'typing.cast') and len(e.args) == 2:
                     return coll_nodes(e.args[1], at, comp_env, seen)
-                if fn in ('set', 'list') and not e.args:
+                if fn in ('set', 'list', 'dict') and not e.args:
                     return True
                 if isinstance(e.func, ast.Attribute):
                     recv = dotted(e.func.value).split('.')[-1]
@@ -1054,6 +1054,8 @@ def r03_6(ctx, counts) -> RuleResult:
                 return val_nodes(e.elt, at, env, seen)
             if isinstance(e, (ast.Set, ast.List, ast.Tuple)):
                 return all(val_nodes(x, at, comp_env, seen) for x in e.elts)
+            if isinstance(e, ast.Dict):
+                return all(k is not None and val_nodes(k, at, comp_env, seen) for k in e.keys)
             if isinstance(e, ast.Name):
                 if e.id in seen:
                     return True          # recursion through S = set(S): decided by other defs
@@ -1091,6 +1093,11 @@ def r03_6(ctx, counts) -> RuleResult:
                     elif isinstance(n, ast.AugAssign) and isinstance(n.target, ast.Name) \
                             and n.target.id == e.id:
                         defs.append((n.value, n, 'coll'))
+                    if isinstance(n, ast.Assign):
+                        for t in n.targets:
+                            if isinstance(t, ast.Subscript) and dotted(t.value) == e.id and \
+                                    not isinstance(t.slice, ast.Slice):
+                                defs.append((t.slice, n, 'elem'))    # dict key / item store
                 if not defs:
                     return False
                 for val, stmt, kind in defs:
